@@ -453,7 +453,7 @@ C02_SCHEMA = {"t": ["a", "b", "c", "d", "p", "q", "r"]}
 
 
 def res_type(op):
-    return "num" if op in NUM_OPS or op == "??" else "bool"
+    return "num" if op in NUM_OPS or op == "??" else "bool"        # "??b": coalesce of boolean operands
 
 
 def arg_types(op):
@@ -466,10 +466,12 @@ def arg_types(op):
         return [("bool", "bool")]
     if op == "??":
         return [("num", "num")]
+    if op == "??b":
+        return [("bool", "bool")]
     raise ValueError(op)
 
 
-ALL_BIN = [o for o in NUM_OPS if o != "//"] + CMP_OPS + ["??"] + LOG_OPS     # `//`: see trees_div_i
+ALL_BIN = [o for o in NUM_OPS if o != "//"] + CMP_OPS + ["??", "??b"] + LOG_OPS     # `//`: see trees_div_i
 
 
 class Leaves:
@@ -482,7 +484,7 @@ class Leaves:
 
 
 def mk(op, l, r):
-    return E("bin", op, l, r)
+    return E("bin", "??" if op == "??b" else op, l, r)
 
 
 def trees_pairs():
